@@ -1259,7 +1259,7 @@ Inv_C06 == C06_MajorityDurable(gh)
 Inv_C15 == C15_NoSelfInflictedDeath(node)
 Inv_C08 == C08_OneVoterDelta(node) /\ C08_ConfigOnlyWhenSafe(gh)
 Inv_C10 == C10_RestartOK(gh)
-Inv_C11 == C11_OnlyVotersCampaign(gh) /\ C11_OnlyVotersLead(gh) /\ C11_PromoteAfterRound(gh) /\ C11_StopOnlyWhenRemoved(gh) /\ C11_DemotedLeaderStepsDown(node)
+Inv_C11 == C11_OnlyVotersCampaign(gh) /\ C11_OnlyVotersLead(gh) /\ C11_OnlyVotersVote(gh) /\ C11_PromoteAfterRound(gh) /\ C11_StopOnlyWhenRemoved(gh) /\ C11_DemotedLeaderStepsDown(node)
 Inv_C09 == C09_SnapshotCommitted(gh, node) /\ C09_NoViewInvalidation(node) /\ C03_FsmIsCommittedPrefix(gh, node)
 Inv_C12 == C12_LabelOK(gh, node)
 Inv_C17a == C17_LeaderStickiness(gh)
